@@ -121,16 +121,152 @@ func genAtom(r *lib.Rng) string {
 	}
 }
 
-func genPredicate(r *lib.Rng) string {
+// genSubqueryAtom: a conjunct that contains a subquery over the same source (@SRC@ is replaced per side). Such a
+// conjunct is not serialisable: the host keeps it (executor.PushDownPredicates' newPredicatesNotSerializable) while its
+// sibling conjuncts travel to the plugin.
+func genSubqueryAtom(r *lib.Rng) string {
+	k := r.Intn(4)
 	switch r.Intn(4) {
 	case 0:
-		return genAtom(r) + " AND " + genAtom(r)
+		return fmt.Sprintf("t.a IN (SELECT u.a FROM @SRC@ u WHERE u.a < %d)", k+1)
 	case 1:
-		return "(" + genAtom(r) + " OR " + genAtom(r) + ")"
+		return fmt.Sprintf("t.a NOT IN (SELECT u.a FROM @SRC@ u WHERE u.a >= %d)", k)
+	case 2:
+		return "t.s IN (SELECT u.s FROM @SRC@ u WHERE u.ok = true)"
 	default:
-		return genAtom(r)
+		return fmt.Sprintf("t.a IN (SELECT u.a + 1 FROM @SRC@ u WHERE u.f > %d.0)", k-1)
 	}
 }
+
+// genPredicate returns the WHERE clause and its shape (counted in the evidence).
+func genPredicate(r *lib.Rng) (string, string) {
+	switch r.Intn(8) {
+	case 0, 1:
+		return genAtom(r) + " AND " + genAtom(r), "and"
+	case 2:
+		return "(" + genAtom(r) + " OR " + genAtom(r) + ")", "or"
+	case 3:
+		return genAtom(r) + " AND " + genSubqueryAtom(r), "pushable_and_subquery"
+	case 4:
+		return genSubqueryAtom(r) + " AND " + genAtom(r) + " AND " + genAtom(r), "subquery_and_pushable"
+	default:
+		return genAtom(r), "atom"
+	}
+}
+
+// ---- tables whose rows and schema depend on their options, referenced several times in one query ----
+
+type numbersRef struct {
+	Options string // "" or "k=v&k=v"
+	Col     string
+	Sq      bool
+	Rows    []int64
+}
+
+func genNumbersRef(r *lib.Rng) numbersRef {
+	ref := numbersRef{Col: "i"}
+	start, step, count := int64(0), int64(1), int64(5)
+	var opts []string
+	if r.Chance(1, 4) {
+		// no options at all: the default table
+	} else {
+		if r.Chance(1, 2) {
+			step = []int64{2, 3, 5, -1}[r.Intn(4)]
+			opts = append(opts, fmt.Sprintf("step=%d", step))
+		}
+		if r.Chance(1, 2) {
+			count = int64(2 + r.Intn(7))
+			opts = append(opts, fmt.Sprintf("count=%d", count))
+		}
+		if r.Chance(1, 3) {
+			start = int64(r.Intn(4))
+			opts = append(opts, fmt.Sprintf("start=%d", start))
+		}
+		if r.Chance(1, 4) {
+			ref.Col = []string{"k", "num"}[r.Intn(2)]
+			opts = append(opts, "name="+ref.Col)
+		}
+		if r.Chance(1, 4) {
+			ref.Sq = true
+			opts = append(opts, "sq=1")
+		}
+	}
+	ref.Options = strings.Join(opts, "&")
+	for k := int64(0); k < count; k++ {
+		ref.Rows = append(ref.Rows, start+k*step)
+	}
+	return ref
+}
+
+func (n numbersRef) pluginName() string {
+	if n.Options == "" {
+		return "vt.numbers"
+	}
+	return "`vt.numbers?" + n.Options + "`"
+}
+
+func (n numbersRef) csv() string {
+	var b strings.Builder
+	b.WriteString(n.Col)
+	if n.Sq {
+		b.WriteString("," + n.Col + "sq")
+	}
+	b.WriteString("\n")
+	for _, v := range n.Rows {
+		fmt.Fprintf(&b, "%d", v)
+		if n.Sq {
+			fmt.Fprintf(&b, ",%d", v*v)
+		}
+		b.WriteString("\n")
+	}
+	return b.String()
+}
+
+// genOptionsQuery: 2..3 references to the plugin table `numbers` (same or different options, any order) in one query:
+// joined, or one in the FROM clause and one inside an IN-subquery next to a pushable conjunct. Returns the query with
+// @R0@.. placeholders, the references and the shape.
+func genOptionsQuery(r *lib.Rng) (string, []numbersRef, string) {
+	m := 2 + r.Intn(2)
+	refs := make([]numbersRef, m)
+	for i := range refs {
+		refs[i] = genNumbersRef(r)
+		if i > 0 && r.Chance(1, 5) {
+			refs[i] = refs[r.Intn(i)] // the same options twice is legitimate too
+		}
+	}
+	col := func(i int) string { return fmt.Sprintf("r%d.%s", i, refs[i].Col) }
+	sel, sel01 := []string{}, []string{}
+	for i := range refs {
+		sel = append(sel, col(i))
+		if refs[i].Sq {
+			sel = append(sel, col(i)+"sq")
+		}
+		if i < 2 {
+			sel01 = append([]string{}, sel...)
+		}
+	}
+	switch r.Intn(3) {
+	case 0:
+		q := fmt.Sprintf("SELECT %s FROM @R0@ r0 JOIN @R1@ r1 ON %s = %s", strings.Join(sel, ", "), col(0), col(1))
+		if m == 3 {
+			q += fmt.Sprintf(" JOIN @R2@ r2 ON %s = %s", col(1), col(2))
+		}
+		return q, refs, "options_join"
+	case 1:
+		q := fmt.Sprintf("SELECT %s FROM @R0@ r0 WHERE %s >= %d AND %s IN (SELECT %s FROM @R1@ r1)", col(0), col(0), r.Intn(2), col(0), col(1))
+		if m == 3 {
+			q += fmt.Sprintf(" AND %s NOT IN (SELECT %s FROM @R2@ r2)", col(0), col(2))
+		}
+		return q, refs, "options_in_subquery"
+	default:
+		q := fmt.Sprintf("SELECT %s FROM @R0@ r0 JOIN @R1@ r1 ON %s = %s WHERE %s < %d", strings.Join(sel01, ", "), col(0), col(1), col(1), 2+r.Intn(20))
+		if m == 3 {
+			q += fmt.Sprintf(" AND %s IN (SELECT %s FROM @R2@ r2)", col(0), col(2))
+		}
+		return q, refs, "options_join_filter_subquery"
+	}
+}
+
 
 type cliResult struct {
 	Exit int
@@ -237,20 +373,48 @@ func e2eCases(cf *lib.CaseFile, rng *lib.Rng, f lib.Flags) {
 			os.WriteFile(dataPath, b, 0o644)
 			os.WriteFile(filepath.Join(home, "t."+kind), []byte(strings.Join(lines, "\n")+"\n"), 0o644)
 		}
-		pred := genPredicate(r)
+		pred, shape := genPredicate(r)
 		if i%7 == 0 {
-			pred = "t.a IN (0, 1, 2)" // the tuple variant of "in" at least once per table
+			pred, shape = "t.a IN (0, 1, 2)", "atom" // the tuple variant of "in" at least once per table
 		} else if i%7 == 1 {
-			pred = "t.s NOT IN ('a', 'ab')"
+			pred, shape = "t.s NOT IN ('a', 'ab')", "atom"
+		} else if i%7 == 2 {
+			pred, shape = genAtom(r)+" AND "+genSubqueryAtom(r), "pushable_and_subquery"
 		}
-		qPlugin := "SELECT t.a, t.s, t.f, t.ok, t.n FROM vt.t t WHERE " + pred
-		qNative := "SELECT t.a, t.s, t.f, t.ok, t.n FROM " + filepath.Join(home, "t."+kind) + " t WHERE " + pred
+		native := filepath.Join(home, "t."+kind)
+		qPlugin := "SELECT t.a, t.s, t.f, t.ok, t.n FROM vt.t t WHERE " + strings.ReplaceAll(pred, "@SRC@", "vt.t")
+		qNative := "SELECT t.a, t.s, t.f, t.ok, t.n FROM " + native + " t WHERE " + strings.ReplaceAll(pred, "@SRC@", native)
 		pr, nr := runCLI(cli, env, qPlugin), runCLI(cli, env, qNative)
 		same := pr.Exit == nr.Exit && strings.Join(pr.Rows, "\n") == strings.Join(nr.Rows, "\n")
-		idx := cf.Add("KQuery "+lib.CoqBool(same), map[string]interface{}{"kind": "e2e_query", "native_source": kind, "predicate": pred, "table": lines,
+		idx := cf.Add("KQuery "+lib.CoqBool(same), map[string]interface{}{"kind": "e2e_query", "native_source": kind, "predicate": pred, "shape": shape, "table": lines,
 			"plugin": pr, "native": nr}, len(nr.Rows) > 0 && len(nr.Rows) < len(lines))
 		_ = idx
 		cf.Count("e2e_query_vs_" + kind)
+		cf.Count("e2e_where_" + shape)
+		if nr.Exit != 0 {
+			cf.Count("e2e_native_query_failed")
+		}
+	}
+
+	// the same plugin table referenced several times with different options in one query (one plugin process)
+	for i, m := 0, f.Cases(12, 72); i < m; i++ {
+		r := rng.Fork()
+		q, refs, shape := genOptionsQuery(r)
+		qPlugin, qNative := q, q
+		distinct := map[string]bool{}
+		for k, ref := range refs {
+			file := filepath.Join(home, fmt.Sprintf("n%d.csv", k))
+			os.WriteFile(file, []byte(ref.csv()), 0o644)
+			qPlugin = strings.ReplaceAll(qPlugin, fmt.Sprintf("@R%d@", k), ref.pluginName())
+			qNative = strings.ReplaceAll(qNative, fmt.Sprintf("@R%d@", k), file)
+			distinct[ref.Options] = true
+		}
+		pr, nr := runCLI(cli, env, qPlugin), runCLI(cli, env, qNative)
+		same := pr.Exit == nr.Exit && strings.Join(pr.Rows, "\n") == strings.Join(nr.Rows, "\n")
+		cf.Add("KQuery "+lib.CoqBool(same), map[string]interface{}{"kind": "e2e_options_query", "shape": shape, "plugin_query": qPlugin, "native_query": qNative,
+			"references": refs, "plugin": pr, "native": nr}, len(distinct) > 1 && len(nr.Rows) > 0)
+		cf.Count("e2e_" + shape)
+		cf.Count(fmt.Sprintf("e2e_options_distinct_option_sets_%d_of_%d", len(distinct), len(refs)))
 		if nr.Exit != 0 {
 			cf.Count("e2e_native_query_failed")
 		}
